@@ -57,7 +57,28 @@ class N(int, Rule):
 def call(k):
     return A(q=str(k + 5))      # k = 0 -> 5 accepted, k >= 1 -> rejected by the Field constraint
 '''
-SCENARIOS = {"class": SRC_CLASS, "func": SRC_FUNC, "cons": SRC_CONS}
+# classes local to a function (their evaluated references are cleared again after the first call); the names are
+# bound in the module afterwards, which is what makes the references resolvable at all
+SRC_LOCAL = '''
+from utype import Schema, Field, Rule
+def make():
+    class A(Schema):
+        v: int = 0
+        b: 'B' = Field(required=False)
+        n: 'N' = Field(required=False)
+    class B(Schema):
+        v: int = 0
+    class N(int, Rule):
+        ge = 0
+    return A, B, N
+A, B, N = make()
+def call(k):
+    return A(v=str(k), b={'v': str(k + 1)}, n=str(k + 2))
+'''
+SCENARIOS = {"class": SRC_CLASS, "func": SRC_FUNC, "cons": SRC_CONS, "local": SRC_LOCAL}
+# model action -> label of the source line that performs it (harness/sched.py PATTERNS)
+MODEL2CODE = {"Check": "Check", "Check2": "Check", "Acquire": "Acquire", "Snapshot": "Snapshot", "Lookup": "Lookup", "Eval": "Eval",
+              "Annot": "Annot", "Pop": "Pop", "Mark": "Mark", "UpdField": "UpdField", "ClearLocal": "ClearLocal", "PopAll": "Pop"}
 _n = [0]
 
 
@@ -111,21 +132,25 @@ def targets():
     from utype.parser.field import ParserField
     from utype.parser.rule import Rule, LogicalType
     from utype.utils.base import TypeRegistry
-    codes = [BaseParser.resolve_forward_refs.__code__, BaseParser.__call__.__code__,
+    from utype.utils.transform import TypeTransformer
+    codes = [TypeTransformer.__call__.__code__, BaseParser.resolve_forward_refs.__code__, BaseParser.__call__.__code__,
              FunctionParser.resolve_forward_refs.__code__, ParserField.resolve_forward_refs.__code__,
              Rule.resolve_forward_refs.__func__.__code__, LogicalType.resolve_forward_refs.__code__,
              TypeRegistry.resolve.__code__, TypeRegistry.register.__code__]
     inner = getattr(BaseParser, "_resolve_forward_refs", None)
     if inner is not None:
         codes.append(inner.__code__)
-    for c in TypeRegistry.register.__code__.co_consts:
-        if hasattr(c, "co_name"):
-            codes.append(c)
+    todo = [TypeRegistry.register.__code__]
+    while todo:         # the decorator defined inside register, and whatever is defined inside that (a sort key, ...)
+        for c in todo.pop().co_consts:
+            if hasattr(c, "co_name"):
+                codes.append(c)
+                todo.append(c)
     return codes
 
 
 # ---- scenario runners ---------------------------------------------------------------------------------------
-def run_refs(scn, nthreads, schedule, by_label=None):
+def run_refs(scn, nthreads, schedule, by_label=None, strict=True):
     """schedule: list of (tid, nsteps) segments; by_label: list of (tid, label) model steps (TLC counterexample)"""
     src = SCENARIOS[scn]
     alone = {}
@@ -136,9 +161,18 @@ def run_refs(scn, nthreads, schedule, by_label=None):
     s = Sched(targets(), label_of)
     for t in range(1, nthreads + 1):
         s.spawn(t, (lambda k: (lambda: m.call(k)))(t - 1))
-    if by_label:
-        for tid, lab in by_label:
-            if not s.run_until(tid, lab + "@A" if scn != "func" else lab + "@f"):
+    tag = "@f" if scn == "func" else "@A"
+    for tid, lab in by_label or []:
+        if tid > nthreads:
+            continue
+        if lab == "ReadField":          # the thread has picked up field.type and stands in front of dereferencing it
+            s.run_to(tid, "Convert@TypeTransformer")
+        elif lab == "Convert":
+            s.run_until(tid, "Convert@TypeTransformer")
+        elif lab == "ClearLocal" and scn != "local":
+            continue
+        elif lab in MODEL2CODE:
+            if not s.run_until(tid, MODEL2CODE[lab] + tag) and strict:
                 break
     for tid, n in schedule:
         for _ in range(n):
@@ -148,6 +182,7 @@ def run_refs(scn, nthreads, schedule, by_label=None):
     results = {str(t): result_of(s.results.get(t)) for t in range(1, nthreads + 1)}
     post = outcome(lambda: m.call(0))
     return {"scn": scn, "threads": nthreads, "schedule": [list(x) for x in schedule],
+            "bylabel": [[t, l] for t, l in by_label or []], "strict": strict,
             "steps": steps_of(s.log),
             "nsteps": len(s.log), "results": [results[str(t)] for t in range(1, nthreads + 1)],
             "alone": [alone[str(t)] for t in range(1, nthreads + 1)], "post": post, "postAlone": alone["1"],
@@ -210,7 +245,58 @@ def tlc_schedule(res):
                 if pcs[t] != prev[t]:
                     out.append((t, prev[t]))
         prev = pcs
-    return [(t, l) for t, l in out if l in ("Check", "Acquire", "Snapshot", "Lookup", "Eval", "Annot", "Pop", "UpdField")]
+    return [(t, l) for t, l in out if l in MODEL2CODE or l in ("ReadField", "Convert")]
+
+
+def model_walks(cfg, rng, limit):
+    """behaviours of ConcRefs under cfg as (thread, action) sequences: TLC dumps the labelled state graph; all complete
+    paths when there are at most `limit`, otherwise `limit` random walks"""
+    import collections
+    import functools
+    import os
+    import re
+    import shutil
+    d = tlc.scratch("c20graph-")
+    try:
+        r = tlc.run("ConcRefs", cfg, workers=1, extra=("-dump", "dot,actionlabels", os.path.join(d, "g.dot")))
+        if r.invariant_violated:
+            raise MachineryError("%s: the graph to walk violates %s" % (cfg, r.invariant_violated))
+        text = open(os.path.join(d, "g.dot")).read()
+    finally:
+        shutil.rmtree(d, ignore_errors=True)
+    edges = collections.defaultdict(list)
+    for m in re.finditer(r'^(-?\d+) -> (-?\d+) \[label="(\w+)\((\d+)\)"', text, re.M):
+        if m.group(1) != m.group(2):
+            edges[m.group(1)].append((m.group(2), int(m.group(4)), m.group(3)))
+    for k in edges:
+        edges[k].sort()
+    init = re.search(r'^(-?\d+) \[label', text, re.M).group(1)
+
+    @functools.lru_cache(None)
+    def count(n):
+        return sum(count(e[0]) for e in edges[n]) if edges[n] else 1
+    total = count(init)
+    walks = []
+    if total <= limit:
+        stack = [(init, [])]
+        while stack:
+            n, path = stack.pop()
+            if not edges[n]:
+                walks.append(path)
+                continue
+            for e in edges[n]:
+                stack.append((e[0], path + [(e[1], e[2])]))
+    else:
+        for _ in range(limit):
+            n, path = init, []
+            while edges[n]:
+                # weight by the number of behaviours below, so that the sample is uniform over behaviours
+                ws = [count(e[0]) for e in edges[n]]
+                e = rng.choices(edges[n], weights=ws)[0]
+                path.append((e[1], e[2]))
+                n = e[0]
+            walks.append(path)
+    return walks, total, r
 
 
 def main():
@@ -218,7 +304,8 @@ def main():
     thorough = ck.tier == "thorough"
     rng = random.Random(ck.seed)
     # ---- 1. model checking -----------------------------------------------------------------------------------
-    for cfg in ["MC_ConcRefs_locked.cfg"] + (["MC_ConcRefs_locked3.cfg"] if thorough else []):
+    for cfg in ["MC_ConcRefs_deferred.cfg", "MC_ConcRefs_deferred_local.cfg", "MC_ConcRefs_locked.cfg"] + (
+            ["MC_ConcRefs_deferred3.cfg", "MC_ConcRefs_deferred3_local.cfg"] if thorough else []):
         r = tlc.run("ConcRefs", cfg)
         ck.mc(r, cfg)
         if r.invariant_violated:
@@ -230,6 +317,10 @@ def main():
     tol = tlc.run("ConcRefs", "MC_ConcRefs_tolerant.cfg")
     if not tol.invariant_violated:
         raise MachineryError("P_AsAlone not falsified on ConcRefs Variant=tolerant")
+    # commit 0c1f78a (names popped inside the loop) lets a second thread of a function-local class skip the lock too early
+    early = tlc.run("ConcRefs", "MC_ConcRefs_locked_local.cfg")
+    if not early.invariant_violated:
+        raise MachineryError("P_AsAlone not falsified on ConcRefs Variant=locked, Local=TRUE")
     r = tlc.run("ConcRegistry", "MC_ConcRegistry_snapshot.cfg")
     ck.mc(r, "MC_ConcRegistry_snapshot")
     if r.invariant_violated:
@@ -238,14 +329,27 @@ def main():
     sh = tlc.run("ConcRegistry", "MC_ConcRegistry_shared.cfg")
     if not sh.invariant_violated:
         raise MachineryError("P_PostAsAlone not falsified on ConcRegistry CacheMode=shared")
-    ck.count("refuted_variants", 3)
+    ck.count("refuted_variants", 4)
     directed = tlc_schedule(orig)
     ck.note("schedule derived from TLC's counterexample for the pinned commit: %s" % directed)
+    directed_local = tlc_schedule(early)
+    ck.note("schedule derived from TLC's counterexample for names popped inside the loop (local class): %s" % directed_local)
 
     # ---- 2. schedules on real threads -----------------------------------------------------------------------------
     runs = []
+    # every behaviour of the model (2 threads) / a uniform sample of them (3 threads), replayed action by action
+    for cfg, scn, nth, limit in [("MC_ConcRefs_deferred_local.cfg", "local", 2, 1000 if thorough else 150),
+                                 ("MC_ConcRefs_deferred.cfg", "class", 2, 1000 if thorough else 100),
+                                 ("MC_ConcRefs_deferred.cfg", "func", 2, 1000 if thorough else 40)] + (
+            [("MC_ConcRefs_deferred3_local.cfg", "local", 3, 600), ("MC_ConcRefs_deferred3.cfg", "class", 3, 300)] if thorough else []):
+        walks, total, gr = model_walks(cfg, rng, limit)
+        ck.count("model_behaviours_%s_%d" % (scn, nth), total)
+        ck.count("model_behaviours_replayed_%s_%d" % (scn, nth), len(walks))
+        for w in walks:
+            runs.append(run_refs(scn, nth, [], by_label=w, strict=False))
     for scn in SCENARIOS:
         runs.append(run_refs(scn, 2, [], by_label=directed))        # TLC's own interleaving
+        runs.append(run_refs(scn, 2, [], by_label=directed_local, strict=False))
         n1 = count_steps(scn)
         ck.count("preemption_points_%s" % scn, n1)
         pts = list(range(0, n1 + 1))
@@ -315,7 +419,7 @@ def replay(path):
     if x["scn"] == "registry":
         y = run_registry(sched, nres=x["threads"] - 1)
     else:
-        y = run_refs(x["scn"], x["threads"], sched)
+        y = run_refs(x["scn"], x["threads"], sched, by_label=[tuple(b) for b in x.get("bylabel", [])], strict=x.get("strict", True))
     y["id"] = "replay"
     print("results:", y["results"], "post:", y["post"])
     r = tlc.judge("Trace_Conc", "Trace_Conc.cfg", [y], workers=1)
